@@ -647,6 +647,33 @@ async fn run_task(sh: Rc<Shared>, id: usize, spec: String) {
                 }
             }
         }
+        ["n", count, every] => {
+            // wake-ups from another thread: the driver returns from `poll` before the timeout, the
+            // timers of the other tasks must not fire because of that
+            let count: usize = count.parse().unwrap();
+            let every = Duration::from_micros(every.parse::<u64>().unwrap() * 100);
+            let hits = Arc::new(std::sync::atomic::AtomicUsize::new(0));
+            let slot: Arc<Mutex<Option<Waker>>> = Arc::new(Mutex::new(None));
+            let th = {
+                let (hits, slot) = (hits.clone(), slot.clone());
+                std::thread::spawn(move || {
+                    for _ in 0..count {
+                        std::thread::sleep(every);
+                        hits.fetch_add(1, Ordering::SeqCst);
+                        if let Some(w) = slot.lock().unwrap().as_ref() {
+                            w.wake_by_ref();
+                        }
+                    }
+                })
+            };
+            std::future::poll_fn(|cx| {
+                *slot.lock().unwrap() = Some(cx.waker().clone());
+                if hits.load(Ordering::SeqCst) >= count { Poll::Ready(()) } else { Poll::Pending }
+            })
+            .await;
+            th.join().unwrap();
+            "noise".to_string()
+        }
         ["i", start, period, n, work] => {
             let start = sh.off(parse_off(start));
             let period = Duration::from_millis(period.parse().unwrap());
@@ -730,6 +757,7 @@ fn horizon_ms(tasks: &[&str]) -> u64 {
                     h = h.max(a.min(parse_off(l)));
                 }
             }
+            ["n", c, e] => h = h.max(parse_off(c) * parse_off(e) / 10 + 1),
             ["i", s, p, n, w] => {
                 let (s, p, n, w) = (parse_off(s).max(0), parse_off(p), parse_off(n), parse_off(w));
                 h = h.max(s + (n + 1) * (p + w + p));
@@ -775,10 +803,12 @@ fn run_rt_once(drv: &str, lp: &str, tasks_s: &str) -> RtOut {
                 if !remaining {
                     let waiting = sh.waiting.borrow();
                     match ct {
-                        None => {
-                            sh.fail("C09:lost-timer", format!("tasks unfinished, no timeout, waiting for {} deadlines", waiting.len()));
+                        None if !waiting.is_empty() => {
+                            sh.fail("C09:lost-timer", format!("no poll timeout while {} tasks wait for a deadline", waiting.len()));
                             break;
                         }
+                        // nothing waits for a timer (only for a wake-up from another thread)
+                        None => {}
                         Some(d) => {
                             // an otherwise idle runtime sleeps no longer than the nearest deadline
                             for (id, dl) in waiting.iter() {
@@ -793,7 +823,13 @@ fn run_rt_once(drv: &str, lp: &str, tasks_s: &str) -> RtOut {
                     sh.fail("C09:never-fires", "watchdog".into());
                     break;
                 }
-                if remaining { rt.poll_with(Some(Duration::ZERO)) } else { rt.poll() }
+                if remaining {
+                    rt.poll_with(Some(Duration::ZERO))
+                } else if ct.is_none() {
+                    rt.poll_with(Some(Duration::from_millis(500))) // bounded, for the watchdog's sake
+                } else {
+                    rt.poll()
+                }
             }
         });
     } else {
@@ -976,6 +1012,54 @@ fn run_ivx(drv: &str, s_ago: u64, p: u64) -> RtOut {
     out
 }
 
+/// `sleep(Duration::from_secs(secs))` and `timeout(same, pending)`: the registered deadline, seen
+/// through `current_timeout`, or the documented overflow panic of `Instant + Duration`
+fn run_dur(drv: &str, secs: u64) -> RtOut {
+    let mut out = RtOut::default();
+    let rt = match build_rt(drv) {
+        Ok(rt) => rt,
+        Err(e) => {
+            out.line = format!("no-driver:{:?}", e.kind());
+            return out;
+        }
+    };
+    out.tags.push("rt:dur".into());
+    let d = Duration::from_secs(secs);
+    let probe = |make: &dyn Fn() -> Box<dyn FnMut(&mut Context<'_>) -> bool>| -> String {
+        rt.enter(|| {
+            let mut cx = Context::from_waker(Waker::noop());
+            match catch(|| {
+                let mut poll = make();
+                let ready = poll(&mut cx);
+                let ct = rt.current_timeout();
+                drop(poll);
+                (ready, ct)
+            }) {
+                Err(_) => "panic".to_string(),
+                Ok((true, _)) => "ready".to_string(),
+                Ok((false, None)) => "unregistered".to_string(),
+                Ok((false, Some(ct))) => format!("after {}", (ct.as_nanos() + 500_000_000) / 1_000_000_000),
+            }
+        })
+    };
+    let a = probe(&|| {
+        let mut s = Box::pin(compio_runtime::time::sleep(d));
+        Box::new(move |cx| s.as_mut().poll(cx).is_ready())
+    });
+    let b = probe(&|| {
+        let mut s = Box::pin(compio_runtime::time::timeout(d, std::future::pending::<()>()));
+        Box::new(move |cx| s.as_mut().poll(cx).is_ready())
+    });
+    if a != b {
+        out.failures.push(("C09:sleep-timeout-differ".into(), format!("sleep({secs}s): {a}, timeout({secs}s): {b}")));
+    }
+    if rt.current_timeout().is_some() {
+        out.failures.push(("C09:residue".into(), format!("dropped sleep({secs}s) left a timer")));
+    }
+    out.line = a;
+    out
+}
+
 // ---------------------------------------------------------------------------------------------
 // case interpreter
 // ---------------------------------------------------------------------------------------------
@@ -990,6 +1074,7 @@ fn rt_line(line: &str) -> RtOut {
     let r = catch(|| match w.as_slice() {
         ["rt", drv, lp, tasks] => run_rt(drv, lp, tasks),
         ["ivx", drv, s, p] => run_ivx(drv, s.parse().unwrap(), p.parse().unwrap()),
+        ["dur", drv, s] => run_dur(drv, s.parse().unwrap()),
         _ => RtOut { line: "bad-op".into(), ..Default::default() },
     });
     // no panic is expected outside the two documented ones, which are caught where they occur
@@ -1002,10 +1087,11 @@ fn rt_line(line: &str) -> RtOut {
 
 fn exec_case(case: &Case) -> Exec {
     let mut ex = Exec::new();
-    let is_rt = case.lines.iter().any(|l| l.starts_with("rt ") || l.starts_with("ivx "));
+    let is_rt_line = |l: &str| l.starts_with("rt ") || l.starts_with("ivx ") || l.starts_with("dur ");
+    let is_rt = case.lines.iter().any(|l| is_rt_line(l));
     if is_rt {
         for l in &case.lines {
-            if l.starts_with("rt ") || l.starts_with("ivx ") {
+            if is_rt_line(l) {
                 let o = rt_line(l);
                 for (s, d) in o.failures {
                     ex.fail(s, d);
@@ -1163,6 +1249,11 @@ fn gen_rt_line(rng: &mut Rng) -> String {
         };
         tasks.push(t);
     }
+    // every third scenario: cross-thread wake-ups at 0.3..2.5 ms intervals while the timers run
+    if rng.chance(1, 3) {
+        let at = rng.below(tasks.len() as u64 + 1) as usize;
+        tasks.insert(at, format!("n,{},{}", rng.range(3, 30), rng.range(3, 25)));
+    }
     format!("rt {drv} {lp} {}", tasks.join(";"))
 }
 
@@ -1183,7 +1274,7 @@ fn gen_ivx_line(rng: &mut Rng) -> String {
 }
 
 fn generate(tier: &str, rng: &mut Rng) -> Vec<Case> {
-    let (n_wheel, n_rt, n_ivx) = if tier == "thorough" { (40_000, 2400, 400) } else { (3_000, 240, 60) };
+    let (n_wheel, n_rt, n_ivx) = if tier == "thorough" { (20_000, 1200, 240) } else { (3_000, 240, 60) };
     let mut cases = vec![];
     // runtime-level scenarios: generated first and executed right away on a pool of threads (each
     // scenario owns a runtime and mostly sleeps); `exec` finds the results in the cache
@@ -1193,6 +1284,16 @@ fn generate(tier: &str, rng: &mut Rng) -> Vec<Case> {
     }
     for _ in 0..n_ivx {
         rt_lines.push(gen_ivx_line(rng));
+    }
+    for _ in 0..n_ivx / 2 {
+        let drv = *rng.pick(&["uring", "poll"]);
+        let secs = match rng.below(4) {
+            0 => rng.range(1, 100_000),
+            1 => rng.range(1, 1 << 40),
+            2 => (1u64 << 63) - rng.range(400, 4000) * 31_536_000, // the largest that still fit
+            _ => (1u64 << 63) + rng.below(1u64 << 63),            // Instant overflow: panic
+        };
+        rt_lines.push(format!("dur {drv} {secs}"));
     }
     let results: Arc<Mutex<HashMap<String, RtOut>>> = Arc::new(Mutex::new(HashMap::new()));
     let queue: Arc<Mutex<Vec<String>>> = Arc::new(Mutex::new(rt_lines.clone()));
